@@ -52,7 +52,7 @@ def integer_group(ctx, world, ev):
     b = Sym("b", "bytes")
     outs = ev.run_method(g, "bytes_to_element", [b], st=st.fork())
     rets = session.rets(outs)
-    ctx.require(rets, "integer group: bytes_to_element(b) has no accepting path")
+    ctx.total(rets, outs, "D-total", "integer group: bytes_to_element(b) has no accepting path")
     ctx.count("decoder_paths", len(outs))
     f = st.heap[g.oid]
     width = gm.attr_of(ev, g, "element_size_bytes", st)
@@ -97,7 +97,7 @@ def ed25519(ctx, world, ev):
     b = Sym("b", "bytes")
     outs = ev.run_method(G, "bytes_to_element", [b], st=world.static.fork())
     rets = session.rets(outs)
-    ctx.require(rets, "Ed25519: bytes_to_element(b) has no accepting path")
+    ctx.total(rets, outs, "D-total", "Ed25519: bytes_to_element(b) has no accepting path")
     ctx.count("decoder_paths", len(outs))
     width = gm.attr_of(ev, G, "element_size_bytes", world.static)
     ctx.require(isinstance(width, Const), "anchor vanished: Ed25519 group element_size_bytes")
@@ -224,6 +224,10 @@ def ed25519(ctx, world, ev):
                 continue
             okm, why = True, "is_identity(L * P) with the complete ladder on the decoded point"
         ctx.ob("D3-order", inst, okm, why, fsite)
+        # the identity test must see the identity: a coordinate it compares unreduced has to arrive normalised
+        for (t, pol) in conds:
+            for (i_, ok_, detail_, site_) in gm.identity_repr_obligations(world, ev, t):
+                ctx.ob("D3-repr", inst + " " + i_, ok_, detail_, site_)
         # ---- D4 identity rejected
         ok4 = False
         if has_ne(conds, b, zero_bytes):
